@@ -280,7 +280,12 @@ class Paraxial:
         max_field = self.optic.fields.max_y_field
 
         if self.optic.field_type == 'object_height':
-            u1 = 0.1 * max_field / y[-1]
+            # the object surface does not propagate rays: y[-1] is the height
+            # at the first surface. Scale by the height at the object plane,
+            # with a positive field at positive height as for real rays
+            pos = self.surfaces.positions
+            y_obj = y[-1] + u[-1] * (pos[1] - pos[0])
+            u1 = -0.1 * max_field / y_obj
         elif self.optic.field_type == 'angle':
             u1 = 0.1 * np.tan(np.deg2rad(max_field)) / u[-1]
 
